@@ -253,6 +253,25 @@ theorem httpLoadFail_eq (c : Bool) (e : SRes) :
   unfold httpLoadFail httpLoadCtxErr
   cases c <;> cases e <;> simp
 
+/-! ## Acquire (round 2) -/
+
+/-- `Acquire` of every provider family is a plain blocking receive from the sink that reports the end of ammo exactly
+when the receive reports the closed, drained channel — the consumer transitions of `Sys.next`: `hand` / `recv` complete
+an Acquire with an ammo, `eoa` (enabled only when `closed ∧ buf = []`) with ok=false, nothing else does -/
+theorem acquire_eq :
+    (acquireHttpBlocks && acquireHttpEndOnClosed && acquireHttpEndOnlyOnClosed &&
+     acquireScenarioBlocks && acquireScenarioEndOnClosed && acquireScenarioEndOnlyOnClosed &&
+     acquireGrpcBlocks && acquireGrpcEndOnClosed && acquireGrpcEndOnlyOnClosed &&
+     acquireQueueBlocks && acquireQueueEndOnClosed && acquireQueueEndOnlyOnClosed) = true ∧
+    (∀ (inp : Input) (n cap cons : Nat) (s s' : Sys) (c : Nat), s.next inp n cap cons (.eoa c) = some s' →
+      s.closed = true ∧ s.buf = []) := by
+  refine ⟨rfl, ?_⟩
+  intro inp n cap cons s s' c h
+  simp only [Sys.next] at h
+  split at h
+  · rename_i hc; exact ⟨hc.1, hc.2.1⟩
+  · cases h
+
 /-! ## the engine's reaction to the provider's result -/
 
 /-- `Model.C08.poolFailsOnProvider` is awaitRun's provider case over errutil.IsCtxError: nil never fails the pool,
